@@ -158,6 +158,10 @@ func runC02(c *fw.Ctx) {
 		if !c.Thorough() || li >= 6 {
 			clocks = []int64{clocks[0], clocks[2%len(clocks)], clocks[len(clocks)-1]}
 		}
+		// one clock after 2038 (times beyond MaxInt32) and one just representable, per layout
+		hi := Clocks(ld.Archs, false, []string{"high"})
+		lo := Clocks(ld.Archs, false, []string{"low"})
+		clocks = append(clocks, hi[1%len(hi)], lo[len(lo)-1])
 		for m := uint32(1); m <= 6; m++ {
 			for _, xff := range c02XFF {
 				for ci, now := range clocks {
